@@ -122,6 +122,19 @@ pub fn run(_ctx: &Ctx, rep: &mut Report) {
         }
     }
     rep.add_space("per-card points of all 52 cards", &acc, t0, "");
+    {
+        // all ordered pairs of the 26 cards of two suits, as items: 650 items -> 422,500 ordered item pairs
+        let two: Vec<u32> = d.iter().filter(|c| c.suit() >= 2).map(|c| c.word()).collect();
+        let mut items = Vec::new();
+        for a in &two {
+            for b in &two {
+                if a != b {
+                    items.push(Case::w32("pair", &[*a, *b]));
+                }
+            }
+        }
+        super::history2(rep, judge, &items);
+    }
     for (x, y) in [(0usize, 13usize), (0, 1), (45, 25), (9, 49)] {
         let t = Two::new(d[x].word(), d[y].word());
         rep.sample(sample_json("pair", &show_words(&[d[x].word(), d[y].word()]), &format!("crate {} oracle {} gap {} pair {} suited {}", t.chen_formula(), chen(d[x], d[y]), t.get_gap(), t.is_pocket_pair(), t.is_suited())));
